@@ -78,6 +78,7 @@ NOT_APPLICABLE = {}
 
 
 def main():
+    META.update(props.META)
     checks = []
     for pid in sorted(props.REGISTRY):
         fn, level = props.REGISTRY[pid]
